@@ -9,6 +9,7 @@
 #include <string.h>
 #include <stdint.h>
 #include <ctype.h>
+#include <pthread.h>
 
 #include "kalign/kalign.h"
 #include "msa_struct.h"
@@ -80,6 +81,15 @@ static void dump_msa(struct msa *m, int codes)
                 printf("}");
         }
         printf("]}\n");
+}
+
+struct parr_arg { char **v; int *l; int n, nt, ty; int rc; char **aln; int al; };
+static void *parr_worker(void *a_)
+{
+        struct parr_arg *a = a_;
+        a->aln = NULL; a->al = 0;
+        a->rc = kalign(a->v, a->l, a->n, a->nt, a->ty, -1.0f, -1.0f, -1.0f, &a->aln, &a->al);
+        return NULL;
 }
 
 static int read_lines(const char *file, char ***out, int **lens)
@@ -176,6 +186,27 @@ int main(int argc, char **argv)
                                 free(aln);
                         }
                         printf("]}\n");
+                        for (int i = 0; i < n; i++) free(v[i]);
+                        free(v); free(l);
+                } else if (!strcmp(op, "parr")) {
+                        /* P application threads call kalign() at the same time on the same (read-only) input arrays */
+                        char *f = tok(&p); int P = atoi(tok(&p)); int nt = atoi(tok(&p)); int ty = atoi(tok(&p));
+                        char **v = NULL; int *l = NULL;
+                        int n = read_lines(f, &v, &l);
+                        if (P > 32) P = 32;
+                        pthread_t th[32]; struct parr_arg pa[32];
+                        for (int k = 0; k < P; k++) { pa[k].v = v; pa[k].l = l; pa[k].n = n; pa[k].nt = nt; pa[k].ty = ty; pthread_create(&th[k], NULL, parr_worker, &pa[k]); }
+                        for (int k = 0; k < P; k++) pthread_join(th[k], NULL);
+                        int same = 1, okc = 0;
+                        for (int k = 0; k < P; k++) {
+                                if (pa[k].rc == 0) okc++;
+                                if (pa[k].rc != pa[0].rc || pa[k].al != pa[0].al) same = 0;
+                                else if (pa[k].rc == 0) for (int i = 0; i < n; i++) if (strcmp(pa[k].aln[i], pa[0].aln[i])) { same = 0; break; }
+                        }
+                        printf("{\"op\":\"parr\",\"n\":%d,\"callers\":%d,\"ok\":%d,\"same\":%d,\"alnlen\":%d,\"rows\":[", opn, P, okc, same, pa[0].al);
+                        if (pa[0].rc == 0) for (int i = 0; i < n; i++) { if (i) putchar(','); jstr(pa[0].aln[i], -1); }
+                        printf("]}\n");
+                        for (int k = 0; k < P; k++) if (pa[k].rc == 0 && pa[k].aln) { for (int i = 0; i < n; i++) free(pa[k].aln[i]); free(pa[k].aln); }
                         for (int i = 0; i < n; i++) free(v[i]);
                         free(v); free(l);
                 } else if (!strcmp(op, "arr2msa")) {
